@@ -225,7 +225,7 @@ class Engine:
         if v.kind == 'bool': return v.term
         if v.kind == 'int': return v.term != 0
         if v.kind == 'none': return z3.BoolVal(False)
-        if v.kind.startswith('list[') or v.kind.startswith('dict['): return p.heap.llen(v.term) != 0
+        if v.kind.startswith('list[') or v.kind.startswith('dict['): return And(v.term != NULL, p.heap.llen(v.term) != 0)     # a list-typed variable may hold None
         if v.kind.startswith('set['): raise Unsupported('truthiness of a set (emptiness is not tracked)')
         if v.kind == 'str': return slen(v.term) != 0
         if v.kind == 'ref': return v.term != NULL
@@ -382,6 +382,8 @@ class Engine:
             a = self.ev(args[0], p)
             if a.kind.startswith('list['): return vint(self.llen(a, p))
             if a.kind == 'str': return vint(slen(a.term))
+            if a.kind.startswith('dict['): return vint(p.heap.llen(a.term))
+            if a.kind == 'ref' and hasattr(self.spec, 'opaque_len'): return vint(self.spec.opaque_len(self, p, a))     # len() of an object the sidecar keeps abstract (e.g. an ndarray)
             raise Unsupported('len of ' + a.kind)
         if d == 'range':
             if len(args) == 1: return V('range', None, lo=z3.IntVal(0), hi=self.ev(args[0], p).term)
